@@ -138,13 +138,13 @@ def build():
     us.ensures('uses', 'ret == cnt(self.use_counts@, *id)')
     ib = u.extract(FM, IMPL, 'is_backwards', 'MulAddFusion::is_backwards')
     ib.rewrite('R6', 'self.def_idx(out).is_some_and(|i| i < idx)', '(match self.def_idx(out) { Some(i) => i < idx, None => false })')
-    ib.ensures('is_backwards', 'ret == (self.defs@.dom().contains(*out) && self.defs@[*out].idx < idx)')
+    ib.ensures('is_backwards', 'ret == bwx(self.defs@, self.input_slots@, *out, idx as int)')
     ind = u.extract(FM, IMPL, 'insert_def', 'MulAddFusion::insert_def')
-    ind.ensures('insert_unless_const', '''final(self).use_counts == old(self).use_counts && final(self).backwards_computed == old(self).backwards_computed
+    ind.ensures('insert_unless_const', '''final(self).use_counts == old(self).use_counts && final(self).backwards_computed == old(self).backwards_computed && final(self).input_slots == old(self).input_slots
             && final(self).defs@ == (if old(self).const_at(id) { old(self).defs@ } else { old(self).defs@.insert(id, IndexedDef { idx, def }) })''')
     tb = u.extract(FM, IMPL, 'track_backwards_op', 'MulAddFusion::track_backwards_op')
-    tb.ensures('backwards_rerecords_computed_operand', '''final(self).use_counts == old(self).use_counts && ({
-            let bw = old(self).defs@.dom().contains(out) && old(self).defs@[out].idx < idx;
+    tb.ensures('backwards_rerecords_computed_operand', '''final(self).use_counts == old(self).use_counts && final(self).input_slots == old(self).input_slots && ({
+            let bw = bwx(old(self).defs@, old(self).input_slots@, out, idx as int);
             &&& final(self).defs@ == (if bw && !old(self).const_at(computed) { old(self).defs@.insert(computed, IndexedDef { idx, def: OpDef::Other }) } else { old(self).defs@ })
             &&& final(self).backwards_computed@ == (if bw { old(self).backwards_computed@.insert(computed, idx) } else { old(self).backwards_computed@ })
         })''')
@@ -221,8 +221,9 @@ def build():
                'for hi_ in 0..outputs.len() { let id = outputs[hi_]; let ghost dpre = self.defs@; self.insert_def(id, idx, OpDef::Other); }')
     sd.requires('fresh', 'old(self).defs@ == Map::<WitnessId, IndexedDef<F>>::empty()')
     sd.ensures('defs_describe_the_op_list', 'final(self).defs_inv(ops@, ops@.len() as int)')
-    sd.ensures('frame', 'final(self).use_counts == old(self).use_counts')
-    sd.loop('for idx in 0..ops.len()', invariants=[('frame', 'self.use_counts == old(self).use_counts'), ('defs', 'dinv(self.defs@, ops@, idx as int)')])
+    sd.ensures('frame', 'final(self).use_counts == old(self).use_counts && final(self).input_slots == old(self).input_slots')
+    sd.requires('told_every_private_input_slot', 'forall|w: WitnessId| #[trigger] is_private_input_slot(w) ==> old(self).input_slots@.contains(w)')
+    sd.loop('for idx in 0..ops.len()', invariants=[('frame', 'self.use_counts == old(self).use_counts && self.input_slots == old(self).input_slots && forall|w: WitnessId| #[trigger] is_private_input_slot(w) ==> old(self).input_slots@.contains(w)'), ('defs', 'dinv(self.defs@, ops@, idx as int)')])
     sd.after('let op = &ops[idx];', 'let ghost d0 = self.defs@; let ghost n = idx as int; let ghost mut ex: WSet = wnone();')
     # Const arm
     sd.after('self.defs .insert(*out, IndexedDef::new(idx, OpDef::Const(*val)));', 'proof { lemma_const(d0, ops@, n, *out, *val); }')
@@ -237,8 +238,8 @@ def build():
         ARM_END = """ proof {
                     let dfin = self.defs@;
                     // what the arm must have done: the backwards step on b, then re-record out at this op (unless constant)
-                    lemma_backwards(d0, ops@, n, *out, *b);
-                    let bw = d0.dom().contains(*out) && d0[*out].idx < n;
+                    lemma_backwards(d0, ops@, n, *out, *b, self.input_slots@.contains(*out));
+                    let bw = bwx(d0, self.input_slots@, *out, n);
                     let d1 = if bw { ins_uc(d0, *b, n as usize, OpDef::<F>::Other) } else { d0 };
                     assert(cat(d1, *out) ==> dfin == d1); // @@A:constant_out_slot_left_alone
                     assert(!cat(d1, *out) ==> dfin.dom().contains(*out) && dfin[*out].idx == n && dfin == d1.insert(*out, dfin[*out])); // @@A:out_slot_rerecorded_at_this_op
@@ -250,10 +251,11 @@ def build():
         sd.body = sd.body[:c_] + ARM_END + sd.body[c_:]
         sd.spec_inserts += 1
         if kind == 'Add':
-            # H (finding C02-fusion-onto-private-input): an Add whose out slot has no earlier definer IN THE OP LIST is taken to compute that slot.
-            # A private input has no defining op, so `lhs - product` with a private lhs (lowered to Add(product, result, lhs)) is mistaken for a forward add.
-            H = ''' proof { if !(d0.dom().contains(*out) && d0[*out].idx < n) {
-                        assert(!is_private_input_slot(*out)); // @@A:H_an_add_whose_out_has_no_definer_in_the_op_list_does_not_write_a_private_input
+            # an Add whose out slot has no earlier definer is taken to COMPUTE that slot: it must not be a private input (those have no defining op).
+            # Before the fix 0ed2fc1 nothing told the pass which slots are private inputs (finding F9); now it is told (precondition) and checks it.
+            H = ''' proof { if !bwx(d0, self.input_slots@, *out, n) {
+                        assert(!old(self).input_slots@.contains(*out));
+                        assert(!is_private_input_slot(*out)); // @@A:an_add_whose_out_has_no_earlier_definer_does_not_write_a_private_input
                     } } '''
             sd.body = sd.body[:o_ + 1] + H + sd.body[o_ + 1:]
             sd.spec_inserts += 1
@@ -267,12 +269,12 @@ def build():
     # NPO arm
     sd.before('for gi_ in 0..outputs.len()', 'proof { lemma_open(d0, ops@, n); }')
     sd.loop('for gi_ in 0..outputs.len()', invariants=[
-        ('frame', 'self.use_counts == old(self).use_counts && n == idx && idx < ops@.len() && ops@.len() <= usize::MAX'),
+        ('frame', 'self.use_counts == old(self).use_counts && self.input_slots == old(self).input_slots && n == idx && idx < ops@.len() && ops@.len() <= usize::MAX'),
         ('partial', 'pinv(self.defs@, ops@, n, ex, false)'),
         ('covered', 'forall|i: int, j: int| 0 <= i < gi_ && 0 <= j < outputs@[i]@.len() ==> ex(#[trigger] outputs@[i]@[j])'),
     ])
     sd.loop('for wi_ in 0..outputs[gi_].len()', invariants=[
-        ('frame', 'self.use_counts == old(self).use_counts && n == idx && idx < ops@.len() && ops@.len() <= usize::MAX && gi_ < outputs@.len()'),
+        ('frame', 'self.use_counts == old(self).use_counts && self.input_slots == old(self).input_slots && n == idx && idx < ops@.len() && ops@.len() <= usize::MAX && gi_ < outputs@.len()'),
         ('partial', 'pinv(self.defs@, ops@, n, ex, false)'),
         ('covered', '''(forall|i: int, j: int| 0 <= i < gi_ && 0 <= j < outputs@[i]@.len() ==> ex(#[trigger] outputs@[i]@[j]))
                 && forall|j: int| 0 <= j < wi_ ==> ex(#[trigger] outputs@[gi_ as int]@[j])'''),
@@ -289,7 +291,7 @@ def build():
     # Hint arm
     sd.before('for hi_ in 0..outputs.len()', 'proof { lemma_open(d0, ops@, n); }')
     sd.loop('for hi_ in 0..outputs.len()', invariants=[
-        ('frame', 'self.use_counts == old(self).use_counts && n == idx && idx < ops@.len() && ops@.len() <= usize::MAX'),
+        ('frame', 'self.use_counts == old(self).use_counts && self.input_slots == old(self).input_slots && n == idx && idx < ops@.len() && ops@.len() <= usize::MAX'),
         ('partial', 'pinv(self.defs@, ops@, n, ex, false)'),
         ('covered', 'forall|j: int| 0 <= j < hi_ ==> ex(#[trigger] outputs@[j])'),
     ])
